@@ -22,8 +22,11 @@ specdef("ranges_ok", {"r": R, "l": "Lines", "upto": "Int"}, "Bool",
         "forall(lambda k: implies(0 <= k and k < len(r), 1 <= r[k][0] and r[k][0] <= r[k][1] and r[k][1] < upto and not blank(l, r[k][0]) and "
         "       implies(k > 0, r[k - 1][1] < r[k][0])))")
 specdef("sorted_ranges", {"r": R}, "Bool", "forall(lambda j, k: implies(0 <= j and j < k and k < len(r), r[j][1] < r[k][0]))")
-specdef("covered", {"r": R, "n": "Int"}, "Bool", "exists(lambda k: 0 <= k and k < len(r) and r[k][0] <= n and n <= r[k][1])")
-specdef("covers_upto", {"r": R, "l": "Lines", "upto": "Int"}, "Bool", "forall(lambda n: implies(1 <= n and n < upto and not blank(l, n), covered(r, n)))")
+# coverage stated by gaps (no existential): every line before the first range, between two consecutive ranges, or after the last one (below `upto`) is blank
+specdef("covers_upto", {"r": R, "l": "Lines", "upto": "Int"}, "Bool",
+        "forall(lambda n: implies(1 <= n and n < upto and len(r) > 0 and n < r[0][0], blank(l, n))) and "
+        "forall(lambda k, n: implies(0 <= k and k < len(r) - 1 and r[k][1] < n and n < r[k + 1][0], blank(l, n))) and "
+        "forall(lambda n: implies(1 <= n and n < upto and (len(r) == 0 or r[len(r) - 1][1] < n), blank(l, n)))")
 contract("_CustomGenerator.__call__", source=M + "_CustomGenerator.__call__", params={"self": "_CustomGenerator"}, returns=R,
          modifies=["self.in_string", "self.open_count", "self.continuation"], raises={}, locals={"result": R},
          ensures=["ranges_ok(result, self.lines, n_lines(self.lines) + 1)", "sorted_ranges(result)", "covers_upto(result, self.lines, n_lines(self.lines) + 1)"],
